@@ -135,3 +135,54 @@ def _scan_run_const():
 
 
 REG.lemmas.append(('scan-no-process-writes-Simulation.running', ['C11', 'C04'], _scan_run_const))
+
+
+# ---- C10: no state shared between two runs in one process ---------------------------------------------------------------------
+def _scan_shared_mutable_class_state():
+    """a list / dict / set bound at CLASS level is one object shared by every instance, hence by every Simulation of a process:
+    if a method mutates it through `self`, the second run of a configuration starts from the first run's leftovers.
+    Static obligation over the whole source (the unchanged tree has no class-level mutable attribute at all)."""
+    import ast
+    from pyvc.source import Source
+    src = Source()
+    MUT = {'append', 'extend', 'insert', 'remove', 'pop', 'clear', 'add', 'update', 'discard', 'setdefault', 'popitem', 'sort', 'reverse'}
+    shared = {}
+    for cname, node in src.classes.items():
+        for s in node.body:
+            tg = None
+            if isinstance(s, ast.Assign) and len(s.targets) == 1 and isinstance(s.targets[0], ast.Name):
+                tg, v = s.targets[0].id, s.value
+            elif isinstance(s, ast.AnnAssign) and isinstance(s.target, ast.Name) and s.value is not None:
+                tg, v = s.target.id, s.value
+            if tg and (isinstance(v, (ast.List, ast.Dict, ast.Set, ast.ListComp, ast.DictComp, ast.SetComp)) or (
+                    isinstance(v, ast.Call) and isinstance(v.func, ast.Name) and v.func.id in ('list', 'dict', 'set', 'defaultdict', 'deque'))):
+                shared.setdefault(tg, []).append(cname)
+    bad = []
+    if shared:
+        for q, fi in src.funcs.items():
+            rebinds = {t.attr for n in ast.walk(fi.node) if isinstance(n, ast.Assign) for t in n.targets
+                       if isinstance(t, ast.Attribute) and isinstance(t.value, ast.Name) and t.value.id == 'self'} if fi.node.name == '__init__' else set()
+            for n in ast.walk(fi.node):
+                a = None
+                if isinstance(n, ast.Call) and isinstance(n.func, ast.Attribute) and n.func.attr in MUT and isinstance(n.func.value, ast.Attribute):
+                    a = n.func.value
+                elif isinstance(n, (ast.Assign, ast.AugAssign)):
+                    for t in (n.targets if isinstance(n, ast.Assign) else [n.target]):
+                        if isinstance(t, ast.Subscript) and isinstance(t.value, ast.Attribute):
+                            a = t.value
+                        elif isinstance(n, ast.AugAssign) and isinstance(t, ast.Attribute):
+                            a = t
+                if a is not None and isinstance(a.value, ast.Name) and a.value.id in ('self', 'cls') and a.attr in shared:
+                    cls_ = fi.cls
+                    owners = shared[a.attr]
+                    if cls_ in owners or any(o in [b.split('.')[-1] for b in src.bases.get(cls_, [])] for o in owners):
+                        # harmless only if every instance rebinds the attribute in its own __init__
+                        init = src.find_method(cls_, '__init__')
+                        rb = {t.attr for m in ast.walk(init.node) if isinstance(m, ast.Assign) for t in m.targets
+                              if isinstance(t, ast.Attribute) and isinstance(t.value, ast.Name) and t.value.id == 'self'} if init else set()
+                        if a.attr not in rb:
+                            bad.append(f"{q}:{n.lineno}:{a.attr}")
+    return [], z3.BoolVal(not bad)
+
+
+REG.lemmas.append(('C10-no-mutable-class-attribute-is-mutated-through-an-instance', ['C10'], _scan_shared_mutable_class_state))
